@@ -902,3 +902,122 @@ Proof.
   intros t H. unfold is_free_order_message in H. apply orb_true_iff in H.
   destruct H as [H|H]; apply N.eqb_eq in H; auto.
 Qed.
+
+(* ------------------------------------------------------------------ *)
+(* what SaveRaftState must fsync: Tan's decision (fields GENERATED from stateSyncChange) *)
+
+Definition tan_inv (d : tan_db) : Prop :=
+  same_claims (td_synced d) (td_written d) /\
+  (is_empty_state (td_cache d) = false ->
+   hs_term (td_cache d) = i_term (td_written d) /\ hs_vote (td_cache d) = i_vote (td_written d)).
+
+Lemma tan_open_inv : forall img, tan_inv (tan_open img).
+Proof.
+  intros img. unfold tan_inv, tan_open, same_claims. cbn. repeat split; reflexivity.
+Qed.
+
+Lemma sync_fields_term_vote : In SfTerm tan_sync_fields /\ In SfVote tan_sync_fields.
+Proof. unfold tan_sync_fields. split; simpl; tauto. Qed.
+
+Lemma state_sync_change_false : forall fields a b f,
+  state_sync_change fields a b = false -> In f fields -> sfield_get f a = sfield_get f b.
+Proof.
+  intros fields a b f H Hin. unfold state_sync_change in H.
+  destruct (N.eq_dec (sfield_get f a) (sfield_get f b)) as [E|E]; [exact E|exfalso].
+  assert (T : existsb (fun f => negb (sfield_get f a =? sfield_get f b)) fields = true).
+  { apply existsb_exists. exists f. split; [exact Hin|]. apply negb_true_iff. apply N.eqb_neq. exact E. }
+  congruence.
+Qed.
+
+Lemma tan_unsynced_write_proved : forall d u d',
+  tan_inv d -> state_wf u = true -> tan_write d u = (d', false) ->
+  same_claims (td_written d') (td_written d) /\ td_synced d' = td_synced d /\ tan_inv d'.
+Proof.
+  intros d u d' [Hs Hc] Hwf H. unfold tan_write in H.
+  destruct (hstate_eqb (u_state u) (td_cache d) && (u_snap_index u =? 0) &&
+            match u_save u with [] => true | _ => false end) eqn:Skip.
+  { injection H as <-. split; [unfold same_claims; repeat split; reflexivity|]. split; [reflexivity|]. split; assumption. }
+  destruct (tan_sync_needed (td_cache d) u) eqn:S; [injection H as _ H; discriminate|].
+  injection H as <-. cbn [td_written td_synced td_cache].
+  unfold tan_sync_needed, tan_sync_on_snapshot, tan_sync_on_entries, tan_sync_on_state_change in S.
+  cbn [andb] in S. apply orb_false_iff in S. destruct S as [S S3].
+  apply orb_false_iff in S. destruct S as [S1 S2].
+  apply negb_false_iff in S1. apply N.eqb_eq in S1.
+  destruct (u_save u) eqn:Sv; [|discriminate].
+  destruct sync_fields_term_vote as [FT FV].
+  assert (ET := state_sync_change_false _ _ _ _ S3 FT). assert (EV := state_sync_change_false _ _ _ _ S3 FV).
+  cbn [sfield_get] in ET, EV.
+  assert (W : same_claims (persist_update (td_written d) u) (td_written d)).
+  { unfold same_claims, persist_update. rewrite Sv, S1. cbn [i_term i_vote i_log i_snap_index i_snap_term].
+    replace (i_snap_index (td_written d) <? 0) with false by (symmetry; apply N.ltb_ge; lia).
+    destruct (is_empty_state (u_state u)) eqn:Em; [repeat split; reflexivity|].
+    unfold state_wf in Hwf. rewrite Em in Hwf. cbn [orb] in Hwf. apply negb_true_iff in Hwf. apply N.eqb_neq in Hwf.
+    assert (Ne : is_empty_state (td_cache d) = false).
+    { unfold is_empty_state. destruct (hs_term (td_cache d) =? 0) eqn:Z; [|reflexivity].
+      apply N.eqb_eq in Z. congruence. }
+    destruct (Hc Ne) as [C1 C2]. repeat split; congruence. }
+  split; [exact W|]. split; [reflexivity|].
+  split.
+  - destruct Hs as [A1 [A2 [A3 [A4 A5]]]]. destruct W as [B1 [B2 [B3 [B4 B5]]]].
+    unfold same_claims. cbn [td_synced td_written]. repeat split; congruence.
+  - cbn [td_cache td_written]. intros Ne. unfold persist_update. rewrite Ne. cbn. split; reflexivity.
+Qed.
+
+Lemma tan_write_inv : forall d u d' s,
+  tan_inv d -> state_wf u = true -> tan_write d u = (d', s) -> tan_inv d'.
+Proof.
+  intros d u d' s I Hwf H. destruct s.
+  - unfold tan_write in H.
+    destruct (hstate_eqb (u_state u) (td_cache d) && (u_snap_index u =? 0) &&
+              match u_save u with [] => true | _ => false end); [injection H as _ H; discriminate|].
+    destruct (tan_sync_needed (td_cache d) u); [|injection H as _ H; discriminate].
+    injection H as <-. split; cbn [td_written td_synced td_cache].
+    + unfold same_claims. repeat split; reflexivity.
+    + intros Ne. unfold persist_update. rewrite Ne. cbn. split; reflexivity.
+  - apply (tan_unsynced_write_proved d u d' I Hwf H).
+Qed.
+
+(* a write that changes the term, the vote, the entries or the snapshot record is fsynced
+   before SaveRaftState returns *)
+Lemma tan_claim_change_requires_sync_proved : forall d u d' s,
+  tan_inv d -> state_wf u = true -> tan_write d u = (d', s) ->
+  ~ same_claims (td_written d') (td_written d) -> s = true.
+Proof.
+  intros d u d' s I Hwf H Hn. destruct s; [reflexivity|exfalso].
+  apply Hn. apply (tan_unsynced_write_proved d u d' I Hwf H).
+Qed.
+
+Lemma covers_same_claims : forall a b m, same_claims a b -> covers a m = covers b m.
+Proof.
+  intros a b m [E1 [E2 [E3 [E4 E5]]]].
+  unfold covers, covers_code, vote_ok, ack_ok, last_durable. rewrite E1, E2, E3, E4. reflexivity.
+Qed.
+
+Lemma tan_run_inv : forall us d, tan_inv d -> forallb state_wf us = true -> tan_inv (tan_run d us).
+Proof.
+  induction us as [|u us IH]; intros d I H; [exact I|].
+  cbn [forallb] in H. apply andb_true_iff in H. destruct H as [H1 H2].
+  unfold tan_run. cbn [fold_left]. apply IH; [|exact H2].
+  destruct (tan_write d u) as [d' s] eqn:W. cbn [fst]. apply (tan_write_inv d u d' s I H1 W).
+Qed.
+
+(* power loss after any sequence of acknowledged saves on a Tan store: what survives makes
+   good every claim that the written state makes good *)
+Lemma tan_power_loss_keeps_claims_proved : forall img us m,
+  forallb state_wf us = true ->
+  covers (td_synced (tan_run (tan_open img) us)) m = covers (td_written (tan_run (tan_open img) us)) m.
+Proof.
+  intros img us m H. apply covers_same_claims.
+  apply (proj1 (tan_run_inv us (tan_open img) (tan_open_inv img) H)).
+Qed.
+
+(* faithful: a commit-only State change is written but not fsynced by Tan (the commit index
+   is not something a message of C04 makes a claim about) *)
+Lemma tan_commit_only_not_synced_proved :
+  exists d u d', tan_inv d /\ state_wf u = true /\ tan_write d u = (d', false) /\
+                 i_commit (td_written d') <> i_commit (td_written d).
+Proof.
+  exists (tan_open (mkImg 3 2 5 0 0 [])), (mkUpd 1 1 (mkHS 3 2 6) [] [] 0 0 [] true).
+  eexists. split; [apply tan_open_inv|]. split; [reflexivity|]. split; [vm_compute; reflexivity|].
+  vm_compute. discriminate.
+Qed.
